@@ -15,6 +15,12 @@
                                (`map_or`, `zip`, `and_then`, `?`, ...) on decided values are computed.  What reaches the
                                `insert` call is the table row.  Nothing is matched against a particular `match` shape; a
                                construct the evaluator does not know leaves the row undecided (UNPROVEN), never silently OK.
+  stored(sl, v)                normal form of a stored value (payload() through `?`, unwrap_or_default, map / and_then,
+                               bool::then + transpose, private helpers)
+  guards_of(E, e)              lib guards_of + the receiver of `cond.then(|| ..)` as a guard of what the closure does
+  EffectsX                     lib Effects + local closures called by name entered like private helpers
+  GrowSlicer._loop_built       a Vec filled by one push per iteration of an exhausted loop = collect(map(collection, body))
+  loop_ran_out(E, cd)          `next() == None` of a loop without early success exit is not a condition
   push_only / peel_pushed      a Vec created empty whose only mutation is push(x): its elements are the pushed values
   completeness_relay(..)       completeness() through such a Vec (collect in one loop / helper, process in another): the
                                pushes that fill it must themselves run for every element of the recognised collection
@@ -23,10 +29,10 @@ import re
 
 from . import layer_env_common as L
 from .lib import iters
-from .lib.effects import Effects, guards_of
+from .lib.effects import Effects, guards_of as _lib_guards_of
 from .lib.mir import op_place, op_const, const_value
 from .lib.paths import strip, _listed_from
-from .lib.value import Slicer, vstr, walk, canon, _phi, is_transparent, value_call_name, TRANSPARENT, UNWRAPPING, OK_PRESERVING, _TRX
+from .lib.value import Slicer, vstr, walk, canon, subst, _phi, is_transparent, value_call_name, TRANSPARENT, UNWRAPPING, OK_PRESERVING, _TRX
 
 OPTION = 'std::option::Option'
 RESULT = 'std::result::Result'
@@ -42,6 +48,84 @@ FILE_READS = ('std::fs::read', 'std::fs::read_to_string', 'std::fs::File::open')
 # ---------------------------------------------------------------------------------------------------------------------
 # success payloads
 # ---------------------------------------------------------------------------------------------------------------------
+BOOL_THEN = ('core::bool::<impl bool>::then', 'core::bool::<impl bool>::then_some', 'std::bool::<impl bool>::then',
+             'std::bool::<impl bool>::then_some')
+DEFAULTING = ('std::option::Option::<T>::unwrap_or_default', 'std::result::Result::<T, E>::unwrap_or_default',
+              'std::option::Option::<T>::unwrap_or', 'std::result::Result::<T, E>::unwrap_or',
+              'std::option::Option::<T>::unwrap_or_else', 'std::result::Result::<T, E>::unwrap_or_else')
+
+
+def stored(sl, v, keep=()):
+    """normal form of a value that is stored somewhere: `?` / unwrap / `unwrap_or_default` / `map` / `and_then` /
+    `bool::then` + `transpose` / private helpers around what is stored are made transparent (the conditions such
+    combinators encode are judged separately, on the guards of the effects)"""
+    n = 0
+    while isinstance(v, tuple) and v and v[0] in ('unwrap', 'updated'):
+        n += 1 if v[0] == 'unwrap' else 0
+        v = v[1]
+    if n == 0 and v[0] == 'call' and v[1] in DEFAULTING and v[2]:
+        r = _defaulting(sl, v[1], v[2], 0, 0, keep)      # (payload() is the identity for n == 0)
+        return v if r is DEAD else r
+    r = payload(sl, v, n, 0, keep)
+    return v if r is DEAD else r
+
+
+class EffectsX(Effects):
+    """Effects that also enters a *local closure called by name* (`let write_entry = |n, v| fs::write(..); .. write_entry(a, b)?`):
+    MIR calls it as `Fn::call(&closure, (a, b))` resolved to the closure body; lib/effects reports every `Fn::call` as an
+    opaque CALLBACK.  When the callee value is a closure literal of the workspace, the body is expanded like a private
+    helper (parameters bound to the tuple's components, captures to the values at the creation site)."""
+    FN_CALLS = ('std::ops::Fn::call', 'std::ops::FnMut::call_mut', 'std::ops::FnOnce::call_once')
+
+    def _expand_call1(self, fn, c, forall, mode, mapping, chain, stack, out):
+        if not c.indirect and c.decl in self.FN_CALLS and len(c.args) == 2 and c.res in self.prog.fns and self.prog.fns[c.res].kind == 'Closure':
+            clv = self.slicer.operand(fn, c.args[0])
+            tv = self.slicer.operand(fn, c.args[1])
+            g = self.prog.fns[c.res]
+            if clv[0] == 'closure' and clv[1] == g.path and tv[0] == 'tuple' and len(tv[1]) == g.argc - 1:
+                n0 = len(out)
+                self._expand_closure(fn, c, clv, list(tv[1]), forall, mode, mapping, chain, stack, out)
+                for e in out[n0:]:
+                    if e.mapping is None:
+                        e.mapping = {}
+                return
+        return super()._expand_call1(fn, c, forall, mode, mapping, chain, stack, out)
+
+
+class closure_calls_expanded:
+    """`with closure_calls_expanded(): L.writer_scope_table(..)` — the shared table extractors of layer_env_common build
+    their own lib Effects; inside the block they get EffectsX (restored afterwards, nothing outside C03 sees it)"""
+
+    def __enter__(self):
+        from .lib import effects as _eff
+        self._mod, self._orig = _eff, _eff.Effects
+        _eff.Effects = EffectsX
+
+    def __exit__(self, *a):
+        self._mod.Effects = self._orig
+        return False
+
+
+def guards_of(E, e):
+    """lib guards_of + the decisions encoded in `cond.then(|| ..)`: an effect inside the closure handed to `bool::then`
+    runs iff the receiver is true — the same guard as `if cond { .. }`, at the level of the chain where `then` is called
+    (negations folded into the outcome, private boolean helpers inlined by Cond.views)"""
+    from .lib.guards import Cond
+    out = list(_lib_guards_of(E, e))
+    for l in e.chain:
+        c = getattr(l, 'call', l)
+        if c.indirect or len(c.args) != 2 or not ({c.decl, c.name, c.res} & set(BOOL_THEN)) or not (c.decl or c.name or '').endswith('::then'):
+            continue
+        m = getattr(l, 'mapping', None) or {}
+        v, oc = E.slicer.operand(c.fn, c.args[0]), True
+        while v[0] == 'un' and v[1] == 'Not':
+            v, oc = v[2], (not oc)
+        cd = Cond(c.fn, c.bb, c.bb, 'bool', oc, v)
+        cd._slicer = E.slicer
+        out.append((cd, [(E.subst(x, m), o) for x, o in cd.views()], None))
+    return out
+
+
 def _is_transpose(name):
     return name.endswith('::transpose') and name.startswith(('std::option::Option::<', 'std::result::Result::<'))
 
@@ -71,6 +155,14 @@ def payload(sl, v, n, d=0, keep=()):
         if _is_transpose(name) and args and n >= 2:
             # Option<Result<T>> <-> Result<Option<T>>: two successful steps reach the same T
             return payload(sl, args[0], n, d + 1, keep)
+        if name in BOOL_THEN and len(args) == 2:
+            # `c.then(f)` / `c.then_some(x)`: Some(f()) / Some(x) when c holds (the test itself is a guard, judged on effects)
+            r = sl.apply_closure(args[1], ()) if name.endswith('::then') else args[1]
+            if r is not None:
+                return payload(sl, r, n - 1, d + 1, keep)
+        if name in DEFAULTING and args:
+            # `x.unwrap_or_default()` / `unwrap_or(d)` / `unwrap_or_else(f)`: the payload of x, or the fallback
+            return _defaulting(sl, name, args, n, d, keep)
         if len(args) == 2 and args[1][0] in ('closure', 'fnitem') and (name in sl.MAP_LIKE or name in sl.AND_THEN):
             x = payload(sl, args[0], 1, d + 1, keep)
             if x is DEAD:
@@ -87,6 +179,19 @@ def payload(sl, v, n, d=0, keep=()):
     for _ in range(n):
         out = ('unwrap', out)
     return out
+
+
+def _defaulting(sl, name, args, n, d, keep):
+    al = [payload(sl, args[0], n + 1, d + 1, keep)]
+    fb = None
+    if name.endswith('::unwrap_or') and len(args) == 2:
+        fb = args[1]
+    elif name.endswith('::unwrap_or_else') and len(args) == 2 and name.startswith('std::option'):
+        fb = sl.apply_closure(args[1], ())
+    if fb is not None:
+        al.append(payload(sl, fb, n, d + 1, keep))
+    al = [a for a in al if a is not DEAD]
+    return _phi(al) if al else DEAD
 
 
 def as_pairs(sl, elem, keep=()):
@@ -174,11 +279,20 @@ def reader_scope_table(prog, sl):
 
 
 def _scan(sl, f, bb, v, scope, root, table, detail, keyv=None):
-    # the value itself (possibly through private helpers) is the result of a per-directory read
-    for x in L.walk_deep(sl, v):
-        if x[0] == 'call' and x[1] == L.R_DIR:
-            kvs = [keyv] if keyv is not None else [y for y in walk(v) if y[0] == 'tuple']
-            _record(f, bb, x, scope, kvs, root, table, detail)
+    # the value itself (possibly through private helpers, `?`, `map` / `and_then` closures, `is_dir().then(|| read)` +
+    # `transpose`, `unwrap_or_default`: H.stored) is the result of a per-directory read
+    seen = []
+    srcs = [v]
+    for y in walk(v):
+        # (also below a phi / an aggregate: `match helper(p)? { Some(d) => d, None => Default::default() }`)
+        if y[0] == 'unwrap' or (y[0] == 'call' and y[1] in DEFAULTING):
+            srcs.append(stored(sl, y, (L.R_DIR,)))
+    for src in srcs:
+        for x in L.walk_deep(sl, src):
+            if x[0] == 'call' and x[1] == L.R_DIR and not any(x is o or x == o for o in seen):
+                seen.append(x)
+                kvs = [keyv] if keyv is not None else [y for y in walk(v) if y[0] == 'tuple']
+                _record(f, bb, x, scope, kvs, root, table, detail)
     # ... or a map collected from an iterator pipeline: every element is (key, result of a per-directory read)
     for x in L.walk_deep(sl, v):
         if x[0] == 'call' and x[1] in iters.COLLECTING and x[2]:
@@ -305,7 +419,7 @@ def push_only(sl, fn, local):
         return None
     c0 = defs[0][3]
     n0 = c0.decl or c0.name or ''
-    if c0.indirect or c0.args or not (n0.startswith('std::vec::Vec') and n0.endswith(_FRESH_VEC)):
+    if c0.indirect or (c0.args and not n0.endswith('::with_capacity')) or not (n0.startswith('std::vec::Vec') and n0.endswith(_FRESH_VEC)):
         return None
     roots = GrowSlicer._mut_roots(sl, fn)
     reach = fn.reachable(0)
@@ -1032,6 +1146,14 @@ _SPEC_SUFFIXES = ('.append', '.default', '.delim', '.override', '.prepend')
 # ---------------------------------------------------------------------------------------------------------------------
 # writer side: a Vec that is *grown* before it is iterated (`let mut t = vec![a, b]; t.extend(xs.iter().map(f)); for x in t`)
 # ---------------------------------------------------------------------------------------------------------------------
+LOOPBODY = 'loopbody'     # (LOOPBODY, value computed by the body, element value of the loop): see GrowSlicer._loop_built
+
+
+def is_loop_built(v):
+    return (v[0] == 'call' and v[1] == iters.IT + 'collect' and len(v[2]) == 1 and v[2][0][0] == 'call' and v[2][0][1] == iters.IT + 'map'
+            and len(v[2][0][2]) == 2 and v[2][0][2][1][0] == LOOPBODY)
+
+
 class GrowSlicer(Slicer):
     """Slicer whose value of a `Vec` local includes what is appended to it through `&mut local` before it is read.
 
@@ -1104,6 +1226,10 @@ class GrowSlicer(Slicer):
             grow.append((c, how))
             chain_locals |= set(roots[pl[0]][1])
         if not grow:
+            # never grown — but a Vec that is borrowed mutably for anything else (truncate / pop / retain / clear / sort /
+            # drain ... through `&mut v`) is not the value it was initialised with either
+            if any(how in ('refmut', 'rawptr') for bi, kind, si, how, pl in fn.uses_of(local) if bi in reach and kind != 'drop'):
+                return 'irregular'
             return None
         if len(fn.whole_defs(local)) != 1 or any(fn.in_loop(c.bb) for c, _ in grow):
             return 'irregular'
@@ -1128,6 +1254,118 @@ class GrowSlicer(Slicer):
                 return 'irregular'
         return grow
 
+    # ---- a Vec filled by one push per iteration of one loop (plan, then execute) ------------------------------------
+    def _loops_struct(self, fn):
+        """[(header, next Call, body, latches, exhaustion edge | None)] of the `Iterator::next` loops of fn (the CFG part of
+        effects.find_loops, without evaluating the iterated expressions)"""
+        key = ('loopstruct', fn.path)
+        if key in self._cache:
+            return self._cache[key]
+        out = []
+        preds = fn.preds()
+        for c in fn.calls:
+            if c.indirect or c.decl != 'std::iter::Iterator::next':
+                continue
+            h = c.bb
+            from_h = fn.reachable(h)
+            latches = [q for q in preds[h] if q in from_h]
+            if not latches:
+                continue
+            body, work = {h}, list(latches)
+            while work:
+                b = work.pop()
+                if b in body:
+                    continue
+                body.add(b)
+                work.extend(q for q in preds[b] if q in from_h)
+            exhaust = None
+            tb = c.target
+            if tb is not None and fn.blocks[tb]['t']['t'] == 'switch':
+                t = fn.blocks[tb]['t']
+                some_t = [b for x, b in t['targets'] if x == 1]
+                outs = [b for x, b in t['targets'] if x != 1] + [t['else']]
+                outs = [b for b in outs if b not in body and fn.blocks[b]['t']['t'] != 'unreachable']
+                if some_t and some_t[0] in body and len(set(outs)) == 1:
+                    exhaust = (tb, outs[0])
+            out.append((h, c, body, latches, exhaust))
+        self._cache[key] = out
+        return out
+
+    def _loop_built(self, fn, local, seen, d):
+        """`let mut v = Vec::new(); for x in C { ..; v.push(f(x)); }` ... readers of v: v is C mapped through f —
+        the iterator-algebra value  collect(map(C, <loop body: x -> f(x)>)),  which lib/iters.alts decomposes like any
+        other pipeline (elements range over C, the element value is f(x)).  Only when this is exact:
+          * v is created empty once (outside any cycle) and mutated by nothing but that single `push` (push_only),
+          * the push lies in exactly one `Iterator::next` loop, on every path from its header to every latch
+            (one push per element: no `continue` / condition around it), and that loop is entered at most once,
+          * every other use of v is reached only over the loop's exhaustion edge (`next()` returned None) — a `break` /
+            early exit that lets a reader see a partially filled vector disqualifies it.
+        Otherwise None (the caller keeps the opaque `vec-mutated` value => the writes through it are not recognised)."""
+        from .lib.guards import edge_dominates
+        pc = push_only(self, fn, local)
+        if not pc or len(pc) != 1:
+            return None
+        push = pc[0]
+        defs = fn.whole_defs(local)
+        if len(defs) != 1 or fn.in_loop(defs[0][1]):
+            return None
+        inside = [l for l in self._loops_struct(fn) if push.bb in l[2] and push.bb != l[0]]
+        if len(inside) != 1:
+            return None
+        header, nxt, body, latches, exhaust = inside[0]
+        if exhaust is None or not all(push.bb == l or fn.dominates(push.bb, l) for l in latches):
+            return None
+        if header in fn.reachable(exhaust[1]) or not fn.dominates(defs[0][1], header):
+            return None
+        roots = self._mut_roots(fn)
+        chain_locals = set()
+        pl = op_place(push.args[0])
+        if pl is not None and len(pl) == 1 and pl[0] in roots:
+            chain_locals = set(roots[pl[0]][1])
+        reach = fn.reachable(0)
+        for bi, kind, si, how, upl in fn.uses_of(local):
+            if bi not in reach or kind == 'drop':
+                continue
+            if how == 'refmut':
+                dest = fn.blocks[bi]['s'][si][1] if kind == 'stmt' else None
+                if dest and len(dest) == 1 and dest[0] in chain_locals:
+                    continue
+                return None
+            if bi in body or not edge_dominates(fn, exhaust[0], exhaust[1], bi):
+                return None
+        rp = op_place(nxt.args[0]) if nxt.args else None
+        if rp is None:
+            return None
+        coll = self.place(fn, rp, seen, d)
+        pushed = self.operand(fn, push.args[1], seen, d)
+        if coll[0] == 'unknown' or any(x[0] == 'unknown' and len(x) > 1 and x[1] == 'cycle' for x in walk(pushed)):
+            return None
+        body_fn = (LOOPBODY, pushed, iters.elem_of(coll))
+        return ('call', iters.IT + 'collect', (('call', iters.IT + 'map', (coll, body_fn), None),), None)
+
+    def apply_closure(self, clv, args):
+        if isinstance(clv, tuple) and clv and clv[0] == LOOPBODY:
+            # the loop body as a function of the loop element
+            if len(args) != 1:
+                return None
+            return subst(clv[1], {'__repl__': [(canon(clv[2]), args[0])]}, self)
+        return super().apply_closure(clv, args)
+
+    def _call_value(self, fn, call, seen, d):
+        v = super()._call_value(fn, call, seen, d)
+        # a private helper that only *builds* such a vector (plan), or collects one from an iterator pipeline, is
+        # transparent: its caller iterates C mapped through f (lib/iters.alts sees the pipeline instead of an opaque call)
+        if v[0] == 'call' and len(v) == 4 and not call.indirect and (call.dty or '').startswith('std::vec::Vec<'):
+            gs = self.prog.callee_fns(call)
+            if len(gs) == 1 and gs[0].kind != 'Closure' and gs[0].path != fn.path and gs[0].crate == fn.crate:
+                g = gs[0]
+                key = (g.path, 0)
+                rv = self.local(g, 0, seen, d) if key not in (seen or ()) else None
+                if rv is not None and (is_loop_built(rv) or (rv[0] == 'call' and rv[1] in iters.COLLECTING and len(rv[2]) == 1)):
+                    m = {(g.path, i): a for i, a in enumerate(v[2]) if i < g.argc}
+                    return subst(rv, m, self)
+        return v
+
     def _with_updates(self, fn, local, v, seen, d):
         v = super()._with_updates(fn, local, v, seen, d)
         if not (fn.local_ty(local) or '').startswith('std::vec::Vec<'):
@@ -1136,6 +1374,9 @@ class GrowSlicer(Slicer):
         if g is None:
             return v
         if g == 'irregular':
+            lb = self._loop_built(fn, local, seen, d)
+            if lb is not None:
+                return lb
             return ('call', 'vec-mutated', (v,), None)
         fresh = v[0] == 'call' and not v[2] and v[1].startswith('std::vec::Vec') and v[1].endswith(self.FRESH)
         parts = [] if fresh else [v]
@@ -1445,14 +1686,32 @@ def _is_entries(wd, v):
     return L.self_field(wd, v) == 'entries'
 
 
+_SAME_COUNT = (iters.IT + 'map', iters.IT + 'enumerate', iters.IT + 'rev', iters.IT + 'cloned', iters.IT + 'copied', iters.IT + 'inspect',
+               iters.IT + 'by_ref', iters.IT + 'fuse', iters.IT + 'peekable', 'std::iter::DoubleEndedIterator::rev')
+
+
+def _count_core(v):
+    """the collection a collected / mapped pipeline has as many elements as (`xs.iter().map(f).collect::<Vec<_>>()` and
+    a Vec filled by one push per element of xs are empty iff xs is)"""
+    v = strip(v)
+    for _ in range(12):
+        if v[0] == 'call' and v[2] and (v[1] in iters.COLLECTING or v[1] in _SAME_COUNT or
+                                        (len(v[2]) == 1 and iters._is_source(v[1]) and v[1].endswith(iters.SAME_ELEMS))):
+            v = strip(v[2][0])
+        else:
+            break
+    return v
+
+
 def _nonempty_test(wd, val, oc):
     """is (val == oc) the statement `self.entries is not empty`?"""
     val = strip(val)
-    if val[0] == 'call' and len(val[2]) == 1 and val[1].endswith('::is_empty') and _is_entries(wd, val[2][0]):
+    _is_ent = lambda x: _is_entries(wd, x) or _is_entries(wd, _count_core(x))
+    if val[0] == 'call' and len(val[2]) == 1 and val[1].endswith('::is_empty') and _is_ent(val[2][0]):
         return oc is False
     if val[0] == 'bin' and len(val) == 4:
         a, b = strip(val[2]), strip(val[3])
-        ln = lambda x: x[0] == 'call' and len(x[2]) == 1 and x[1].endswith('::len') and _is_entries(wd, x[2][0])
+        ln = lambda x: x[0] == 'call' and len(x[2]) == 1 and x[1].endswith('::len') and _is_ent(x[2][0])
         zero = lambda x: x[0] == 'const' and x[1] == 0 and not isinstance(x[1], bool)
         one = lambda x: x[0] == 'const' and x[1] == 1 and not isinstance(x[1], bool)
         op = val[1]
@@ -1465,9 +1724,32 @@ def _nonempty_test(wd, val, oc):
     return False
 
 
-def write_guard_problems(E, e, wd):
+def loop_ran_out(E, cd, subj=None):
+    """is the decision `next() returned None` the exhaustion edge of a loop that cannot be left in any other way with the
+    function still succeeding (no break / early Ok)?  Code behind such a loop runs on every successful path through it:
+    the decision is not a condition on anything (plan loop first, file-system work afterwards)."""
+    if cd.kind != 'variant' or cd.enum != OPTION or cd.outcome != frozenset({'None'}):
+        return False
+    s = strip(subj if subj is not None else cd.subject) if (subj is not None or cd.subject is not None) else None
+    if s is None or s[0] != 'call' or s[1] != iters.IT + 'next':
+        return False
+    for lp in E.loops(cd.fn):
+        ex = getattr(lp, 'exhaust', None)
+        if ex is not None and ex[0] == cd.sw_bb and ex[1] == cd.target:
+            return loop_early_success(E, lp) == []
+    return False
+
+
+def opaque(v):
+    """does the value depend on something the value model does not describe (a vector mutated in place in a way that is
+    not an exact append / one push per loop element, an unknown rvalue)?  Obligations on such a value are undecided."""
+    return any(isinstance(x, tuple) and x and ((x[0] == 'call' and x[1] == 'vec-mutated') or x[0] == 'unknown') for x in walk(v))
+
+
+def write_guard_problems(E, e, wd, undecided=None):
     """guards of a per-entry file write that are not implied by `the entry exists`:
-    -> (problems, set of ModificationBehavior variants the write is restricted to | None)"""
+    -> (problems, set of ModificationBehavior variants the write is restricted to | None);
+    boolean guards on opaque values go to `undecided` (when given) instead of the problems"""
     mutating = {n for n, (k, _) in E.vocab.items() if k in ('MKDIR', 'WRITE', 'REMOVE_TREE', 'REMOVE_DIR', 'REMOVE_FILE', 'OPEN')}
     probs, variants = [], None
     for cd, views, subj in guards_of(E, e):
@@ -1477,6 +1759,8 @@ def write_guard_problems(E, e, wd):
                 continue       # an earlier `?` succeeded
             if cd.enum == OPTION and cd.outcome == frozenset({'Some'}) and s is not None and s[0] == 'call' and s[1] == iters.IT + 'next':
                 continue       # the iteration itself
+            if loop_ran_out(E, cd, subj):
+                continue       # an earlier loop (plan phase) ran to exhaustion
             if cd.enum == RESULT and cd.outcome == frozenset({'Ok'}) and s is not None and s[0] == 'call' and s[1] in mutating:
                 continue       # an earlier fs mutation succeeded (explicit match instead of `?`)
             if cd.enum == L.MB:
@@ -1487,11 +1771,15 @@ def write_guard_problems(E, e, wd):
         if cd.kind == 'bool':
             if any(_nonempty_test(wd, val, oc) for val, oc in views):
                 continue
+            if undecided is not None and any(opaque(val) for val, oc in views):
+                undecided.append(repr(cd))
+                continue
             probs.append(repr(cd))
             continue
         if cd.kind == 'int':
             v = strip(views[0][0])
-            if v[0] == 'call' and len(v[2]) == 1 and v[1].endswith('::len') and _is_entries(wd, v[2][0]) and cd.outcome == ('not', (0,)):
+            if v[0] == 'call' and len(v[2]) == 1 and v[1].endswith('::len') and (_is_entries(wd, v[2][0]) or _is_entries(wd, _count_core(v[2][0]))) \
+                    and cd.outcome == ('not', (0,)):
                 continue
             probs.append(repr(cd))
             continue
